@@ -27,6 +27,15 @@ class Exec(tprog.Impl):
         return super().run(line)
 
 
+def to_model(line):
+    """complex / unsigned / 16-bit / bool dtypes are all `not floating point` for the model: spelled i64 there"""
+    t = line.split(' ')
+    if len(t) > 2 and t[1] == 'leaf' and t[2] in ('c64', 'c128', 'u8', 'i16', 'bool'):
+        t[2] = 'i64'
+        return ' '.join(t)
+    return line
+
+
 def gen_seq(rng, tier):
     P = gen_dag.Prog()
     lines = []
@@ -56,14 +65,14 @@ def gen_seq(rng, tier):
         nt = len(P.tshape)
         if r < 0.18 or nt == 0:
             sh = rng.pick([(2,), (), (2, 2)])
-            dt = rng.pick(['f64', 'f64', 'f64', 'i64'])   # float32 rounding of gradients is C10's subject
+            dt = rng.pick(['f64', 'f64', 'f64', 'f64', 'i64', 'c128', 'c64', 'u8', 'i16', 'bool'])   # float32 rounding of gradients is C10's subject
             rg = rng.chance(.6)
             data = [float(rng.randint(-3, 3)) for _ in range(int(np.prod(sh)) if sh else 1)]
             lines.append(gen_dag.leaf_line(sh, data, rg, dt))
             # a rejected creation (int tensor requiring grad) creates nothing
-            if not (rg and dt == 'i64' and not any(k == 'ng' for _, k in active)):
+            if not (rg and dt != 'f64' and not any(k == 'ng' for _, k in active)):
                 tid = P.add_leaf(sh, data, rg, dt)
-                if dt == 'i64': ints.add(tid)
+                if dt != 'f64': ints.add(tid)
         elif r < 0.50:
             flo = [t for t in range(nt) if t not in ints]
             if not flo: return
@@ -276,10 +285,10 @@ def oracle(c):
             if o != 'rejected':
                 rg_of[ntens] = bool(int(t[4])) and grad
                 if rg_of[ntens]: ever.add(ntens)
-                if t[2] in ('i64',) and rg_of[ntens]:
-                    return fail('float-only', 'an integer tensor was made to require grad')
+                if t[2] not in ('f64', 'f32') and rg_of[ntens]:
+                    return fail('float-only', f'a tensor of dtype {t[2]} (not floating point) was made to require grad')
                 ntens += 1
-            elif not (t[2] == 'i64' and bool(int(t[4])) and grad):
+            elif not (t[2] not in ('f64', 'f32') and bool(int(t[4])) and grad):
                 return fail('leaf-rejected', 'leaf creation raised')
         elif t[1] == 'op' and o != 'rejected':
             ins = common.parse_ints(t[3])
